@@ -60,8 +60,16 @@ def parse_spec(path: str):
             dirs.append(Directive("verbatim", text="".join(verb), line=verb_line))
             verb = []
 
-    with open(path) as f:
-        lines = f.readlines()
+    def read_lines(pth, depth=0):
+        out = []
+        for raw in open(pth).readlines():
+            m = re.match(r"\s*@include\s+(\S+)", raw)
+            if m and depth < 5:
+                out += read_lines(os.path.join(os.path.dirname(pth), m.group(1)), depth + 1)
+            else:
+                out.append(raw)
+        return out
+    lines = read_lines(path)
     for ln, raw in enumerate(lines, 1):
         s = raw.strip()
         if cur is None:
